@@ -30,6 +30,31 @@ Theorem C11_client_validation_only_400 : forall r, go_client_parse r = CErrValid
 Proof. exact client_validation_only_400. Qed.
 Print Assumptions C11_client_validation_only_400.
 
+(* behind net/http's framing (lying Content-Length, cut or malformed chunking): one result class, and a
+   value or typed error only from a completely delivered body *)
+Theorem C11_client_framed_total : forall f r,
+  go_client_framed f r = FRTransport \/ go_client_framed f r = FRRead \/
+  exists c, go_client_framed f r = FRParsed c /\ f = FrComplete /\
+    ((rc_status r < 400)%N -> c = CResp \/ c = CErrDecode) /\
+    ((400 <= rc_status r)%N -> c = CErrValidation \/ c = CErrSebuf \/ c = CErrOther).
+Proof. exact client_framed_total. Qed.
+Print Assumptions C11_client_framed_total.
+
+Theorem C11_client_framed_value_needs_complete : forall f r c,
+  go_client_framed f r = FRParsed c -> f = FrComplete /\ c = go_client_parse r.
+Proof. exact client_framed_value_needs_complete. Qed.
+Print Assumptions C11_client_framed_value_needs_complete.
+
+Theorem C11_client_framed_cut_is_error : forall f r, f <> FrComplete ->
+  go_client_framed f r = FRTransport \/ go_client_framed f r = FRRead.
+Proof. exact client_framed_cut_is_error. Qed.
+Print Assumptions C11_client_framed_cut_is_error.
+
+Example C11_client_framed_nonvacuous :
+  go_client_framed FrBodyCutShort {| rc_status := 200; rc_empty := false; rc_as_result := true; rc_as_validation := false; rc_as_error := false |} = FRRead
+  /\ go_client_framed FrComplete {| rc_status := 200; rc_empty := false; rc_as_result := true; rc_as_validation := false; rc_as_error := false |} = FRParsed CResp.
+Proof. vm_compute. split; reflexivity. Qed.
+
 Example C11_nonvacuous :
   defects_C11 {| bc_fmt := BJson; bc_read := ReadOk; bc_empty := false; bc_syntax_ok := true; bc_convs := [true; true]; bc_rest_ok := true |} = []
   /\ go_bind_body {| bc_fmt := BJson; bc_read := ReadOk; bc_empty := false; bc_syntax_ok := true; bc_convs := [true; true]; bc_rest_ok := true |} = BDispatch true.
